@@ -350,6 +350,38 @@ fn p_new<C: ColApi>(r0: u32, r1: u32) -> String {
     format!("OK {}", n)
 }
 
+/// the eight named constants of RgbColor in source order: storage/r/g/b
+fn named_items<C: ColApi + RgbColor>() -> String {
+    [C::BLACK, C::RED, C::GREEN, C::BLUE, C::YELLOW, C::MAGENTA, C::CYAN, C::WHITE]
+        .iter()
+        .map(|c| format!("{}/{}/{}/{}", c.storage(), c.r(), c.g(), c.b()))
+        .collect::<Vec<_>>()
+        .join(",")
+}
+/// ... and the property: channels are 0 / maximum as the name says
+fn p_named<C: ColApi + RgbColor>() -> String {
+    let m = C::maxs();
+    let want = [[0, 0, 0], [m[0], 0, 0], [0, m[1], 0], [0, 0, m[2]], [m[0], m[1], 0], [m[0], 0, m[2]], [0, m[1], m[2]], m];
+    let got = [C::BLACK, C::RED, C::GREEN, C::BLUE, C::YELLOW, C::MAGENTA, C::CYAN, C::WHITE];
+    for i in 0..8 {
+        if got[i].chans() != want[i] {
+            return format!("FAIL class=named_constants type={} constant #{} is {:?}, expected channels {:?}", C::NAME, i, got[i], want[i]);
+        }
+    }
+    "OK 8".to_string()
+}
+macro_rules! with_rgb {
+    ($name:expr, $f:ident) => {
+        match $name {
+            "Rgb332" => Some($f::<Rgb332>()), "Rgb444" => Some($f::<Rgb444>()), "Rgb555" => Some($f::<Rgb555>()),
+            "Bgr555" => Some($f::<Bgr555>()), "Rgb565" => Some($f::<Rgb565>()), "Bgr565" => Some($f::<Bgr565>()),
+            "Rgb666" => Some($f::<Rgb666>()), "Bgr666" => Some($f::<Bgr666>()), "Rgb888" => Some($f::<Rgb888>()),
+            "Bgr888" => Some($f::<Bgr888>()),
+            _ => None,
+        }
+    };
+}
+
 pub fn run(suite: &str, a: &[&str]) -> Option<String> {
     let r = match suite {
         "col_info" => with_color!(a[0], info()),
@@ -357,6 +389,8 @@ pub fn run(suite: &str, a: &[&str]) -> Option<String> {
         "col_new" => with_color!(a[0], new_items(p64(a[1]) as usize, p64(a[2]) as u8, p64(a[3]) as u8)),
         "p_raw" => with_color!(a[0], p_raw(p64(a[1]), p64(a[2]), p64(a[3]))),
         "p_new" => with_color!(a[0], p_new(p64(a[1]) as u32, p64(a[2]) as u32)),
+        "named" => return Some(with_rgb!(a[0], named_items).unwrap_or_else(|| format!("NOT-RGB {}", a[0]))),
+        "p_named" => return Some(with_rgb!(a[0], p_named).unwrap_or_else(|| format!("FAIL class=named_constants type={} is not an RGB type", a[0]))),
         _ => return None,
     };
     r.or_else(|| Some(format!("UNKNOWN-TYPE {}", a[0])))
